@@ -46,6 +46,10 @@ pub struct Case {
     /// run KFold / cross_val_predict / cross_validate on DenseMatrix<f32>
     #[serde(default)]
     pub f32m: bool,
+    /// a harness-owned splitter party (seam: the `BaseKFold` trait) instead of `KFold`: explicit
+    /// (train, test) index lists whose train part need NOT be the complement of the test part
+    #[serde(default)]
+    pub custom_folds: Option<Vec<(Vec<usize>, Vec<usize>)>>,
 }
 
 pub struct C16;
@@ -116,6 +120,28 @@ fn ids_of_y<T: RealNumber>(y: &[T]) -> Result<Vec<usize>, String> {
         .enumerate()
         .map(|(i, v)| g_inv(f(*v)).ok_or_else(|| format!("target {} holds {} (not a target of any row)", i, f(*v))))
         .collect()
+}
+
+/// Seam S3b: a splitter party. Either the real `KFold` or explicit folds handed out verbatim.
+enum Splitter {
+    Real(KFold),
+    Custom(Vec<(Vec<usize>, Vec<usize>)>),
+}
+
+impl BaseKFold for Splitter {
+    type Output = Box<dyn Iterator<Item = (Vec<usize>, Vec<usize>)>>;
+    fn split<T: RealNumber, M: smartcore::linalg::Matrix<T>>(&self, x: &M) -> Self::Output {
+        match self {
+            Splitter::Real(k) => Box::new(k.split(x)),
+            Splitter::Custom(f) => Box::new(f.clone().into_iter()),
+        }
+    }
+    fn n_splits(&self) -> usize {
+        match self {
+            Splitter::Real(k) => k.n_splits(),
+            Splitter::Custom(f) => f.len(),
+        }
+    }
 }
 
 #[derive(Clone, Debug)]
@@ -389,6 +415,7 @@ fn forced_small() -> &'static Small {
                             tape: TapeSpec::prng(1).with_prefix(words.clone()),
                             kind: "forced-permutation".into(),
                             f32m: pi % 3 == 1,
+                            custom_folds: None,
                         });
                     }
                 }
@@ -406,6 +433,7 @@ fn forced_small() -> &'static Small {
                         tape: TapeSpec::prng(1).with_prefix(words.clone()),
                         kind: "forced-permutation".into(),
                         f32m: false,
+                        custom_folds: None,
                     });
                 }
             }
@@ -540,7 +568,11 @@ impl C16 {
             Op::CrossValPredict | Op::CrossValidate => {
                 let is_cv = case.op == Op::CrossValidate;
                 let hist = Rc::new(RefCell::new(Hist::default()));
-                let cvk = KFold { n_splits: k, shuffle: case.shuffle };
+                let cvk = match &case.custom_folds {
+                    Some(f) => Splitter::Custom(f.clone()),
+                    None => Splitter::Real(KFold { n_splits: k, shuffle: case.shuffle }),
+                };
+                let k = case.custom_folds.as_ref().map(|f| f.len()).unwrap_or(k);
                 enum Out {
                     Pred(Result<Vec<f64>, Failed>),
                     Scores(Result<(Vec<f64>, Vec<f64>), Failed>),
@@ -641,7 +673,22 @@ impl C16 {
                                 tests.push(held[0].clone());
                             }
                             if ok {
-                                if let Err((c, m)) = check_folds(n, k, case.shuffle, &trains, &tests) {
+                                if let Some(cf) = &case.custom_folds {
+                                    // the splitter party's folds must be used verbatim
+                                    if trains.len() != cf.len() {
+                                        rep.fail("fold-count", opname, format!("{}: {} models fitted for {} folds of the splitter", ctx, trains.len(), cf.len()));
+                                    }
+                                    for (fi, (ctr, cte)) in cf.iter().enumerate().take(trains.len()) {
+                                        if &trains[fi] != ctr {
+                                            rep.fail("train-not-splitter-train", opname, format!("{}: fold {}: the splitter handed out training rows {:?} but the model was fitted on {:?}", ctx, fi, clip(ctr), clip(&trains[fi])));
+                                            break;
+                                        }
+                                        if &tests[fi] != cte {
+                                            rep.fail("test-not-splitter-test", opname, format!("{}: fold {}: the splitter handed out test rows {:?} but the model predicted {:?}", ctx, fi, clip(cte), clip(&tests[fi])));
+                                            break;
+                                        }
+                                    }
+                                } else if let Err((c, m)) = check_folds(n, k, case.shuffle, &trains, &tests) {
                                     rep.fail(c, opname, format!("{}: {}", ctx, m));
                                 }
                                 match &out {
@@ -651,6 +698,9 @@ impl C16 {
                                             rep.fail("result-shape", opname, format!("{}: {} predictions for {} rows", ctx, yhat.len(), n));
                                         }
                                         for (i, v) in yhat.iter().enumerate() {
+                                            if case.custom_folds.is_some() && !tests.iter().any(|t| t.contains(&i)) {
+                                                continue; // row held out by no fold of the splitter party
+                                            }
                                             match decode_pred(*v) {
                                                 None => {
                                                     rep.fail("prediction-missing", opname, format!("{}: position {} holds {} (no held-out prediction was placed there)", ctx, i, v));
@@ -801,6 +851,8 @@ impl Property for C16 {
                     note: "PRNG words with extreme words (0, 1, 2^31, 2^32-1, ...) injected at random draw sites" },
             Batch { name: "forced-structured", count: if q { 40_000 } else { 600_000 }, simulated: true, exhaustive: false,
                     note: "identity / reverse / rotation / parity-sorted / adjacent-swap permutations forced through the seam" },
+            Batch { name: "splitter-party", count: if q { 20_000 } else { 400_000 }, simulated: true, exhaustive: false,
+                    note: "a harness-owned BaseKFold party hands out explicit folds whose training part is not the complement of the test part (expanding window / sub-sampled / embargo); the folds must be used verbatim" },
             Batch { name: "party-fault", count: if q { 40_000 } else { 600_000 }, simulated: true, exhaustive: false,
                     note: "estimator fit/predict fails at a chosen fold; invariants are checked on the history prefix" },
         ]
@@ -814,7 +866,7 @@ impl Property for C16 {
             "noshuffle-exhaustive" => {
                 let (n, k) = noshuffle_pairs()[(index / 3) as usize];
                 let op = [Op::KFold, Op::CrossValPredict, Op::CrossValidate][(index % 3) as usize].clone();
-                Case { op, n, k, p: 1 + (index % 3) as usize, shuffle: false, fail_at: None, tape: TapeSpec::prng(tape_seed), kind: "noshuffle".into(), f32m: (n + k) % 4 == 0 }
+                Case { op, n, k, p: 1 + (index % 3) as usize, shuffle: false, fail_at: None, tape: TapeSpec::prng(tape_seed), kind: "noshuffle".into(), f32m: (n + k) % 4 == 0, custom_folds: None }
             }
             "split-noshuffle" => {
                 let f32m = index % 2 == 1;
@@ -825,7 +877,7 @@ impl Property for C16 {
                 while ((n as f32) * ts) as usize == 0 {
                     n += 7;
                 }
-                Case { op: Op::Split { test_size: ts, f32m }, n, k: 2, p: 1 + (index % 4) as usize, shuffle: false, fail_at: None, tape: TapeSpec::prng(tape_seed), kind: "noshuffle".into(), f32m: false }
+                Case { op: Op::Split { test_size: ts, f32m }, n, k: 2, p: 1 + (index % 4) as usize, shuffle: false, fail_at: None, tape: TapeSpec::prng(tape_seed), kind: "noshuffle".into(), f32m: false, custom_folds: None }
             }
             "forced-perm-exhaustive" => forced_small().cases[index as usize].clone(),
             _ => {
@@ -850,7 +902,7 @@ impl Property for C16 {
                     5..=7 => Op::CrossValPredict,
                     _ => Op::CrossValidate,
                 };
-                let mut c = Case { op, n, k, p, shuffle: true, fail_at: None, tape: TapeSpec::prng(tape_seed), kind: "prng".into(), f32m: r.chance(0.25) };
+                let mut c = Case { op, n, k, p, shuffle: true, fail_at: None, tape: TapeSpec::prng(tape_seed), kind: "prng".into(), f32m: r.chance(0.25), custom_folds: None };
                 match batch {
                     "prng-shuffle" => {}
                     "extreme-shuffle" => {
@@ -870,6 +922,43 @@ impl Property for C16 {
                         let stages: u8 = if c.op == Op::CrossValidate { 3 } else { 2 };
                         c.fail_at = Some((r.below(k as u64) as usize, r.below(stages as u64) as u8));
                         c.kind = "party-fault".into();
+                    }
+                    "splitter-party" => {
+                        // a harness-owned BaseKFold: disjoint test sets that need not cover 0..n, training sets that are
+                        // NOT the complement (expanding window, sub-sampled, or complement minus an embargo)
+                        c.op = if r.chance(0.5) { Op::CrossValPredict } else { Op::CrossValidate };
+                        c.shuffle = false;
+                        let nf = r.usize_in(2, 6.min(n / 2).max(2));
+                        let mut ids: Vec<usize> = (0..n).collect();
+                        r.shuffle(&mut ids);
+                        let per = (n / nf).max(1);
+                        let mut folds = vec![];
+                        for fi in 0..nf {
+                            let mut test: Vec<usize> = ids.iter().skip(fi * per).take(r.usize_in(1, per)).copied().collect();
+                            test.sort_unstable();
+                            if test.is_empty() {
+                                continue;
+                            }
+                            let lo = test[0];
+                            let mut train: Vec<usize> = match r.below(3) {
+                                0 => (0..lo).collect(),                                                     // expanding window
+                                1 => (0..n).filter(|i| !test.contains(i) && r.chance(0.6)).collect(),       // sub-sampled
+                                _ => (0..n).filter(|i| !test.contains(i) && (*i + 1 < lo || *i > test[test.len() - 1] + 1)).collect(), // embargo
+                            };
+                            if train.is_empty() {
+                                train = (0..n).filter(|i| !test.contains(i)).take(1).collect();
+                            }
+                            if train.is_empty() {
+                                continue;
+                            }
+                            folds.push((train, test));
+                        }
+                        if folds.len() < 2 {
+                            folds = vec![((1..n).collect(), vec![0]), ((0..n - 1).collect(), vec![n - 1])];
+                        }
+                        c.k = folds.len();
+                        c.custom_folds = Some(folds);
+                        c.kind = "splitter-party".into();
                     }
                     _ => panic!("unknown batch {}", batch),
                 }
@@ -919,6 +1008,9 @@ impl Property for C16 {
             push(c);
         }
         for nn in [case.k.max(2), case.n / 2, case.n.saturating_sub(1)] {
+            if case.custom_folds.is_some() {
+                break;
+            }
             if nn < case.n && nn >= 1 {
                 let mut c = case.clone();
                 c.n = nn;
@@ -929,7 +1021,22 @@ impl Property for C16 {
                 push(c);
             }
         }
+        if let Some(cf) = &case.custom_folds {
+            for i in 0..cf.len() {
+                if cf.len() > 1 {
+                    let mut c = case.clone();
+                    let mut f2 = cf.clone();
+                    f2.remove(i);
+                    c.k = f2.len().max(2);
+                    c.custom_folds = Some(f2);
+                    push(c);
+                }
+            }
+        }
         for kk in [2, case.k / 2, case.k.saturating_sub(1)] {
+            if case.custom_folds.is_some() {
+                break;
+            }
             if kk >= 2 && kk < case.k {
                 let mut c = case.clone();
                 c.k = kk;
@@ -979,7 +1086,7 @@ impl Property for C16 {
     fn sample(&self, case: &Case, report: &Report) -> Value {
         json!({
             "op": format!("{:?}", case.op), "n": case.n, "k": case.k, "p": case.p, "shuffle": case.shuffle,
-            "fail_at": case.fail_at, "kind": case.kind, "f32": case.f32m,
+            "fail_at": case.fail_at, "kind": case.kind, "f32": case.f32m, "splitter_party_folds": case.custom_folds,
             "tape_prefix_words": case.tape.prefix.len(), "tape_seed": case.tape.seed, "extreme_per_mille": case.tape.extreme_pm,
             "words_served": report.tape.len(),
             "first_words_served": report.tape.iter().take(8).collect::<Vec<_>>(),
